@@ -434,31 +434,43 @@ def check_adapters(ctx):
     except Exception as e:  # noqa: BLE001
         ctx.note(f"gymnax adapters not importable: {e}")
         return
-    genv, gparams = gymnax.make("CartPole-v1")
-    ad = GymnaxToLeraxEnv(genv, gparams)
-    for rep in range(ctx.budget(1, 4)):
-        key = jr.key(int(rng.integers(0, 10_000)))
-        state = ad.initial(key=key)
-        tobs, tstate = genv.reset_env(key, gparams)
-        case = {"kind": "gymnax-to-lerax"}
-        if not ctx.close(np.asarray(ad.observation(state, key=key)), np.asarray(tobs), 4):
-            ctx.phi_fail("adapter_reset_observation", case)
-        for t in range(ctx.budget(30, 120)):
-            key, k = jr.split(key)
-            a = jnp.asarray(int(rng.integers(0, 2)))
-            nxt = ad.transition(state, a, key=k)
-            to, tstate, tr, td, _ = genv.step_env(k, tstate, a, gparams)
-            o = np.asarray(ad.observation(nxt, key=k))
-            r = float(ad.reward(state, a, nxt, key=k)); term = bool(ad.terminal(nxt, key=k))
-            c = {**case, "t": t, "impl": {"obs": o, "reward": r, "terminal": term},
-                 "twin": {"obs": np.asarray(to), "reward": float(tr), "done": bool(td)}}
-            ctx.case({"k": "gx2l", "rep": rep, "t": t}, True)
-            ctx.count("adapter:gymnax-to-lerax")
-            if not (ctx.close(o, np.asarray(to), 4) and ctx.close(r, float(tr)) and term == bool(td)):
-                ctx.phi_fail("adapter_trajectory_gymnax_to_lerax", c)
-            state = nxt
-            if td:
-                break
+    # several Gymnax environments, among them ones whose emitted observation is NOT `get_obs` of the
+    # post-transition state (MemoryChain shows its context cue for one extra step)
+    for gname in ctx.budget(["CartPole-v1", "MemoryChain-bsuite", "Catch-bsuite"],
+                            ["CartPole-v1", "MemoryChain-bsuite", "Catch-bsuite", "DeepSea-bsuite", "Pendulum-v1",
+                             "DiscountingChain-bsuite"]):
+        try:
+            genv, gparams = gymnax.make(gname)
+            ad = GymnaxToLeraxEnv(genv, gparams)
+        except Exception as e:  # noqa: BLE001
+            ctx.note(f"gymnax {gname} not constructible here: {type(e).__name__}"[:120])
+            continue
+        discrete = hasattr(genv, "num_actions") and not gname.startswith("Pendulum")
+        for rep in range(ctx.budget(1, 3)):
+            key = jr.key(int(rng.integers(0, 10_000)))
+            state = ad.initial(key=key)
+            tobs, tstate = genv.reset_env(key, gparams)
+            case = {"kind": "gymnax-to-lerax", "env": gname}
+            if not ctx.close(np.asarray(ad.observation(state, key=key), np.float64), np.asarray(tobs, np.float64), 4):
+                ctx.phi_fail("adapter_reset_observation", case)
+            for t in range(ctx.budget(20, 80)):
+                key, k = jr.split(key)
+                a = (jnp.asarray(int(rng.integers(0, genv.num_actions))) if discrete
+                     else jnp.asarray(rng.uniform(-1, 1, (1,)), dtype=float))
+                nxt = ad.transition(state, a, key=k)
+                to, tstate, tr, td, _ = genv.step_env(k, tstate, a, gparams)
+                o = np.asarray(ad.observation(nxt, key=k), np.float64)
+                r = float(ad.reward(state, a, nxt, key=k)); term = bool(ad.terminal(nxt, key=k))
+                c = {**case, "t": t, "impl": {"obs": o, "reward": r, "terminal": term},
+                     "twin": {"obs": np.asarray(to), "reward": float(tr), "done": bool(td)}}
+                ctx.case({"k": "gx2l", "env": gname, "rep": rep, "t": t}, True)
+                ctx.count("adapter:gymnax-to-lerax:" + gname)
+                if not (ctx.close(o, np.asarray(to, np.float64), 4) and ctx.close(r, float(tr)) and term == bool(td)):
+                    ctx.phi_fail("adapter_trajectory_gymnax_to_lerax", c)
+                    break
+                state = nxt
+                if td:
+                    break
     for rep in range(ctx.budget(1, 4)):
         env0 = random_tabular(rng, n_noise=1, p_term=0.15, p_trunc=0.1)
         env0 = eqx.tree_at(lambda e: e.inits, env0, env0.inits[:1])
